@@ -216,6 +216,7 @@ def check(chk):
     _requests_sized_by_unclaimed(chk, repo)
     _resolve_incoming(chk, repo)
     _ball_save_conservation(chk, repo)
+    _claimed_vs_physical(chk, repo)
     _bounded_waits(chk, repo)
     _wakeups(chk, repo)
 
@@ -464,6 +465,25 @@ def inloop_any_guard(cfg, node, head):
     return bool(inloop_guards(cfg, node.id, head.id))
 
 
+def _claimed_vs_physical(chk, repo):
+    """OWN-5b: a ball device decides what it can serve by `available_balls` (the balls nobody has claimed); the physical count
+    (`balls`, `counted_balls`) includes balls that are already promised to somebody.  Inside BallDevice no decision reads the physical
+    count (today: no read at all) -- a request served from `balls` hands out a ball twice."""
+    bd = repo.cls(BD, "BallDevice")
+    n = 0
+    for m in bd.methods.values():
+        if m.name in ("balls", "capacity", "state"):
+            continue
+        n += 1
+        for x in walk_local(m.node):
+            if isinstance(x, ast.Attribute) and isinstance(x.ctx, ast.Load) and x.attr in ("balls", "counted_balls") and isinstance(x.value, (ast.Name, ast.Attribute)) \
+                    and not (isinstance(x.value, ast.Attribute) and x.value.attr in ("game",)):
+                chk.analysed(m)
+                chk.ob("OWN-5", "BallDevice.%s decides by the unclaimed balls (available_balls), not by the physical count" % m.name, False, m.where(x),
+                       detail="reads `%s`" % src(x), construct=m.ident, text="physical count read in BallDevice." + m.name)
+    chk.ob("OWN-5", "BallDevice methods examined for reads of the physical ball count (%d): none" % n, n >= 30, bd.where(), nontrivial=False)
+
+
 def _ball_save_conservation(chk, repo):
     """SAVE-5: a saved ball is a ball taken out of the drain and requested again -- one for one.  What the drain handler keeps back
     it schedules; what is scheduled goes to exactly one sink; the pending count accumulates until it is handed over; the hand-over
@@ -627,6 +647,7 @@ def battery():
         M("recount request wiped after taking the lock", BC, "            self._revalidate.clear()\n\n            # get lock and update count\n            await self._is_counting.acquire()\n", "            # get lock and update count\n            await self._is_counting.acquire()\n            self._revalidate.clear()\n", "WAKE-5"),
         M("multiball forgets what earlier locks released", "mpf/devices/multiball.py", "            balls_added += balls_to_release", "            balls_added = balls_to_release", "SAVE-5"),
         M("multiball lock requests the full number again", "mpf/devices/multiball_lock.py", "        self.source_playfield.add_ball(balls=max(balls - balls_added, 0))", "        self.source_playfield.add_ball(balls=balls)", "SAVE-5"),
+        M("request served from the physical ball count", BD, "        if self.available_balls > 0 and self != target:", "        if self.balls > 0 and self != target:", "OWN-5"),
     ]
 
 
